@@ -25,6 +25,7 @@ func runC16(c *core.Ctx) {
 	const pk = "pdf/pagetree"
 	defer rulePageNumberAdvance(c)
 	defer rulePageTreeReaders(c)
+	defer ruleRangeCloseNotifies(c)
 	defer ruleAliasHygiene(c, [3]string{"C16-R7", "C16-R8", "C16-R9"}, "pdf/pagetree")
 	c.Check("C16-R1", pk+".(*Writer).mergeNodes", "/Kids, /Count, the node's page count and the children's /Parent come from one and the same child slice", func(o *core.Ob) {
 		fn := c.Prog.Func(pk, "(*Writer).mergeNodes")
@@ -515,4 +516,73 @@ func rulePageTreeReaders(c *core.Ctx) {
 		})
 		o.Require(uses >= 2, "uses of the callback not found")
 	})
+}
+
+// ruleRangeCloseNotifies (C16-R10): the parent of a page range learns the
+// number of pages in the range when the range is closed (its page counter
+// waits for that number), and pending page-number callbacks are answered.
+// Every successful return of Writer.Close lies behind both pieces of
+// bookkeeping; an early return for "nothing to do" leaves the counters of all
+// later pages unresolved.
+func ruleRangeCloseNotifies(c *core.Ctx) {
+	const pk = "pdf/pagetree"
+	c.Check("C16-R10", pk+".(*Writer).Close/notifies", "every successful return of Close passes the notification of the page-count callbacks and of the pending page-number callbacks", func(o *core.Ob) {
+		fn := c.Prog.Func(pk, "(*Writer).Close")
+		g := fn.Graph()
+		info := fn.Info()
+		// the two bookkeeping points: the test on numPagesCb and the loop over nextPageNumberCb
+		var tests []*core.V
+		for _, v := range g.Vs {
+			if v.Cond == nil {
+				continue
+			}
+			var e ast.Node
+			if v.Cond.Expr != nil {
+				e = v.Cond.Expr
+			} else if v.Cond.Range != nil {
+				e = v.Cond.Range.X
+			}
+			if e == nil {
+				continue
+			}
+			s := c.Prog.Src(e)
+			if strings.Contains(s, ".numPagesCb") && v.Cond.Range == nil || (v.Cond.Range != nil && strings.Contains(s, ".nextPageNumberCb")) {
+				tests = append(tests, v)
+				o.At(fn.Site(e, "bookkeeping"))
+			}
+		}
+		o.Require(len(tests) >= 2, "the notification of numPagesCb / nextPageNumberCb was not found in Close")
+		// the "already closed" return is the only success return allowed in front of them
+		for _, r := range g.Returns() {
+			rs := r.AST.(*ast.ReturnStmt)
+			if len(rs.Results) != 2 || !core.IsNil(info, rs.Results[1]) {
+				// returns of a call's error (flush) count as success paths too when they are at the end
+				if len(rs.Results) != 2 {
+					continue
+				}
+				if _, isCall := ast.Unparen(rs.Results[1]).(*ast.CallExpr); !isCall {
+					continue
+				}
+			}
+			o.Count(1)
+			closedGuard := g.GuardedBy(r, func(a core.Atom) bool {
+				return !a.Neg && a.Tag == nil && strings.HasSuffix(c.Prog.Src(a.Expr), ".isClosed")
+			})
+			if closedGuard {
+				continue
+			}
+			for _, tv := range tests {
+				if !g.Dominates(tv, r) {
+					o.FailAt(fn.Site(rs, ""), "%s: Close can return successfully without having notified %s: counters that wait for this range never resolve and the callbacks of all later pages are never called", c.Prog.Pos(rs.Pos()), c.Prog.Src(condNode(tv)))
+				}
+			}
+		}
+	})
+}
+
+func condNode(v *core.V) ast.Node {
+	if v.Cond.Expr != nil {
+		return v.Cond.Expr
+	}
+	return v.Cond.Range.X
 }
